@@ -65,8 +65,9 @@ fn strategy(t: Tier) -> BoxedStrategy<In> {
         vec((0u8..3, any::<u16>(), gen::u16b(), gen::u32b(), vec((gen::u16b(), gen::tail()), 0..3)), 0..3),
         vec(any::<u8>(), 0..6),
         0u8..4,
+        prop_oneof![3 => (0u16..4).prop_map(|b| b & 0), 2 => any::<u16>()],
     )
-        .prop_map(|(mut p, opcode, rcode, strays, choices, pos)| {
+        .prop_map(|(mut p, opcode, rcode, strays, choices, pos, bits)| {
             // received messages may carry any opcode / response code
             if opcode != 0 {
                 p.opcode = opcode;
@@ -74,7 +75,7 @@ fn strategy(t: Tier) -> BoxedStrategy<In> {
             if rcode != 0 {
                 p.rcode = if p.edns.is_some() { rcode } else { rcode & 15 };
             }
-            (p, strays, choices, pos, 0u16)
+            (p, strays, choices, pos, bits)
         })
         .boxed()
 }
@@ -97,6 +98,36 @@ pub fn render(input: &In) -> Vec<u8> {
         };
         let at = gen::pick(*idx, v.len() + 1);
         v.insert(at, rec);
+    }
+    // (a) a second OPT record that equals the first except for the flag bits of its TTL
+    if _bits & 1 == 1 {
+        if let Some(e) = &p.edns {
+            let twin = ARecord {
+                name: AName(vec![]),
+                class: e.udp,
+                cache_flush: false,
+                ttl: (((p.rcode >> 4) as u32) << 24) | ((e.version as u32) << 16) | (*_bits as u32 & 0xfffe),
+                rdata: ARData::Typed { code: 41, fields: vec![Val::Pairs(e.options.clone())] },
+            };
+            let at = gen::pick(*_bits, p.additionals.len() + 1);
+            p.additionals.insert(at, twin);
+        }
+    }
+    // (b) NSEC windows that are not in increasing order (malformed: a parser may refuse them; if it accepts
+    // them, re-serialisation must still show what it showed)
+    if _bits & 2 == 2 {
+        for r in p.answers.iter_mut().chain(p.authorities.iter_mut()).chain(p.additionals.iter_mut()) {
+            if let ARData::Typed { code: 47, fields } = &mut r.rdata {
+                if let Val::Windows(w) = &mut fields[1] {
+                    if w.len() >= 3 {
+                        let n = w.len();
+                        w.swap(n - 1, n - 2);
+                    } else if w.len() == 2 {
+                        w.swap(0, 1);
+                    }
+                }
+            }
+        }
     }
     let p = gen::fit(p);
     let mut opts = if choices.is_empty() { EncOpts::plain() } else { EncOpts::foreign(choices.clone()) };
@@ -155,7 +186,7 @@ fn check_mutated(input: &super::c01::Mutated, case: &mut Case) -> Result<(), Fai
 pub fn def() -> CheckDef {
     CheckDef {
         id: "C11",
-        rule: "parser-accepted byte strings from: (1) reference encodings of packets with arbitrary (foreign) compression, unknown types, empty RDATA, any 4-bit opcode, any response code (12-bit with EDNS), OPT at any additional index, stray OPT records in any section (also twice); (1b) suffix-sharing messages with filler that puts names beyond offset 16383; (2) all 65536 header words on a valid compressed message; (3) the accepted part of mutated encodings. Oracle: parse -> build_bytes_vec / build_bytes_vec_compressed succeeds -> parse succeeds -> every observable field equal (id, flags, opcode(), rcode(), EDNS, sections, every record field). Non-trivial = accepted by the parser and >= 1 entry (mutated: >= 1 mutation)",
+        rule: "parser-accepted byte strings from: (1) reference encodings of packets with arbitrary (foreign) compression, unknown types, empty RDATA, any 4-bit opcode, any response code (12-bit with EDNS), OPT at any additional index, stray OPT records in any section (also twice, also a twin of the EDNS record differing only in its TTL flag bits), NSEC records with windows out of order (accepted or not); (1b) suffix-sharing messages with filler that puts names beyond offset 16383; (2) all 65536 header words on a valid compressed message; (3) the accepted part of mutated encodings. Oracle: parse -> build_bytes_vec / build_bytes_vec_compressed succeeds -> parse succeeds -> every observable field equal (id, flags, opcode(), rcode(), EDNS, sections, every record field). Non-trivial = accepted by the parser and >= 1 entry (mutated: >= 1 mutation)",
         assumptions: vec!["observation = public accessors + byte hooks; opcode()/rcode() compared as the caller sees them (unnamed values show as Reserved)"],
         sections: vec![
             Box::new(ReplayOnly { name: "fuzz-bytes", check: check_raw }),
